@@ -403,9 +403,35 @@ impl Sub for History {
     }
 }
 
+const MACHINE_ORACLE: crate::machine::Oracle = crate::machine::Oracle::Determinism;
+const MACHINE_OPS: usize = 16;
+
+/// The API history machine (harness/src/machine.rs) with this property's invariant.
+pub struct ApiHistory;
+
+impl Sub for ApiHistory {
+    type Case = crate::machine::History;
+    fn name(&self) -> &'static str {
+        "api_history"
+    }
+    fn max_shrink_iters(&self) -> u32 {
+        200
+    }
+    fn strategy(&self, _env: &Env) -> BoxedStrategy<crate::machine::History> {
+        crate::machine::strategy(MACHINE_OPS)
+    }
+    fn check(&self, c: &crate::machine::History, st: &mut Stats) -> Result<(), Fail> {
+        crate::machine::run(c, MACHINE_ORACLE, st)?;
+        st.nontrivial(&format!("{:?}", c.ops));
+        st.sample("api_history", || serde_json::json!({"variants": c.variants, "ops": c.ops.iter().take(12).collect::<Vec<_>>()}));
+        Ok(())
+    }
+}
+
 const META: Meta = Meta {
     rule: "(1) bit flips: every one of the 256 seed bits of at least one Falcon-512 seed (enumerated) and generated (seed, bit) pairs for both variants: keygen(seed xor e_i) must differ from keygen(seed) as bytes; (2) histories of 5-9 steps over two random seeds per variant plus a degenerate seed (all-zero / all-0xFF), interpreted against a model map seed -> bytes of the first generation: Keygen (same thread), KeygenInThread (fresh thread), KeygenConcurrently (two threads at once), KeygenInChild (the harness re-executes itself), Sign (interleaved signing with a live key); every later generation of a seed must reproduce the first bytes; (3) repeated generation (twice in one thread, once in a fresh thread) of generated seeds and of the committed slow seeds - seeds on which the key generator rejects 60-200 candidates before accepting one, found by replaying its candidate loop through the hooks (`fvh hunt-c15`); (4) process history: the key of a seed generated in a fresh process, in a fresh process that first generated a key of the other variant, and in this process must agree (generated seeds plus committed seeds whose f, g come close to the other variant's coefficient limit). Non-trivial = a bit flip, or a history with a re-generation in another thread/process or after an interleaved sign; distinct by hash.",
     assumptions: &[
+        "api_history sub-check: generated histories of 6-60 operations over four in-place key slots (load a fresh object, regenerate, clone, encode/decode, drop, sign and verify on this or a fresh thread; messages include the empty one and two large ones of equal length), interpreted against the obvious model with this property's invariant",
         "'depends on nothing but the seed' is tested against the influences the harness can vary: thread, process, call history, prior signing; not the machine",
         "schedules are exercised by real threads, not enumerated (key generation has no shared mutable state)",
     ],
@@ -413,7 +439,7 @@ const META: Meta = Meta {
 
 pub fn run(env: &Env, replay: Option<&Path>) -> i32 {
     let mut report = Report::new();
-    let subs: [&dyn DynSub; 4] = [&BitFlip, &History, &Repeat, &ProcessHistory];
+    let subs: [&dyn DynSub; 5] = [&BitFlip, &History, &Repeat, &ProcessHistory, &ApiHistory];
     if let Some(p) = replay {
         if let Err(e) = replay_file(env, &subs, p, &mut report) {
             eprintln!("harness: {}", e);
@@ -444,6 +470,7 @@ pub fn run(env: &Env, replay: Option<&Path>) -> i32 {
     drive(env, &History, env.tier.pick(12, 128), &mut report);
     drive(env, &Repeat, env.tier.pick(8, 400), &mut report);
     drive(env, &ProcessHistory, env.tier.pick(6, 200), &mut report);
+    drive(env, &ApiHistory, env.tier.pick(48, 1_000), &mut report);
     let covered: Vec<usize> = (0..256).filter(|b| report.stats.counters.contains_key(&format!("bit_position_covered_{:03}", b))).collect();
     report.extra.insert("seed_bit_positions_covered".into(), json!(covered.len()));
     report.stats.counters.retain(|k, _| !k.starts_with("bit_position_covered_"));
